@@ -71,6 +71,7 @@ func init() { Register("natsdrain", natsdrainHarness) }
 
 func natsdrainHarness(rc *RunCtx) {
 	tp := rc.Tape
+	rc.AllowStalls = true // the oracle is stated in scheduler steps, not in time
 	s := rc.NewSim(rc.Scale(40000, 120000), 10*time.Minute)
 	h := &drainHarness{rc: rc, s: s, reqs: map[int]*drainReq{}}
 	b := NewSimBroker(rc)
